@@ -385,8 +385,12 @@ class GroupScores(Scores):
                     )
                     pos.append(group_scores.pos[pos_idx])
                     neg.append(group_scores.neg[neg_idx])
-                    pos_groups.append(np.asarray([group for _ in pos_idx]))
-                    neg_groups.append(np.asarray([group for _ in neg_idx]))
+                    # A group without sampled positives (negatives) must not contribute
+                    # an empty float array: concatenation would turn integer group
+                    # labels into floats.
+                    dtype = self.groups.dtype
+                    pos_groups.append(np.asarray([group for _ in pos_idx], dtype=dtype))
+                    neg_groups.append(np.asarray([group for _ in neg_idx], dtype=dtype))
 
                 scores = GroupScores(
                     pos=np.concatenate(pos),
